@@ -214,6 +214,8 @@ pub struct Instance {
     pub blob_left_by: BTreeMap<u64, String>,
     /// physical entries (seqno, type) of single-delete keys before the current structural op
     pub phys_prev: BTreeMap<Key, Vec<(u64, u8, u64)>>,
+    /// fault engine: marker file bracketing every call into the crate (exact injection windows)
+    pub call_markers: Option<std::fs::File>,
 }
 
 fn to_bound(b: &Bound<Key>) -> Bound<Key> {
@@ -287,6 +289,7 @@ impl Instance {
             last_blob_ids: BTreeSet::new(),
             blob_left_by: BTreeMap::new(),
             phys_prev: BTreeMap::new(),
+            call_markers: None,
         };
         me.open_tree(&["C04"])?;
         Ok(me)
@@ -309,6 +312,29 @@ impl Instance {
         }
     }
 
+    /// Marks the start of a call into the crate (fault engine only; one write syscall).
+    pub fn call_start(&mut self) {
+        if let Some(f) = self.call_markers.as_mut() {
+            use std::io::Write;
+            let _ = f.write_all(b"M S\n");
+        }
+    }
+
+    /// Marks the return of a call into the crate.
+    pub fn call_done(&mut self, ok: bool) {
+        if let Some(f) = self.call_markers.as_mut() {
+            use std::io::Write;
+            let _ = f.write_all(if ok { b"M R ok\n" } else { b"M R err\n" });
+        }
+    }
+
+    pub fn is_compacting(&self) -> bool {
+        match self.tree() {
+            AnyTree::Standard(t) => t.is_compacting(),
+            AnyTree::Blob(b) => b.index.is_compacting(),
+        }
+    }
+
     pub fn is_blob(&self) -> bool {
         self.cfg.kv.is_some()
     }
@@ -318,13 +344,15 @@ impl Instance {
         if let Some(f) = &self.filter {
             c = c.with_compaction_filter_factory(Some(Arc::new(LogFactory(f.clone()))));
         }
+        self.call_start();
         let r = catch_unwind(AssertUnwindSafe(|| c.open()));
+        self.call_done(matches!(r, Ok(Ok(_))));
         match r {
             Ok(Ok(t)) => {
                 self.tree = Some(t);
                 Ok(())
             }
-            Ok(Err(e)) => Err(Violation::new(tags, "open-error", format!("Config::open failed: {e:?}"))),
+            Ok(Err(e)) => Err(Violation::new(tags, "error:open:Config::open", format!("Config::open failed: {e:?}"))),
             Err(_) => Err(Violation::new(
                 tags,
                 "open-panic",
@@ -566,7 +594,9 @@ impl Instance {
                 if *rotate && tree.rotate_memtable().is_some() {
                     self.model.rotate();
                 }
+                self.call_start();
                 let r = tree.flush(&lock, t);
+                self.call_done(r.is_ok());
                 drop(lock);
                 r.map_err(|e| self.op_err(op, "flush", &e))?;
                 self.model.flushed();
@@ -581,7 +611,10 @@ impl Instance {
                         .with_l0_threshold(*l0)
                         .with_level_ratio_policy(vec![f32::from(*ratio)]);
                     let before = self.latest().0;
-                    self.tree().compact(Arc::new(strat), t).map_err(|e| self.op_err(op, "compact(leveled)", &e))?;
+                    self.call_start();
+                    let r = self.tree().compact(Arc::new(strat), t);
+                    self.call_done(r.is_ok());
+                    r.map_err(|e| self.op_err(op, "compact(leveled)", &e))?;
                     if std::env::var_os("LSMV_TRACE").is_some() {
                         eprintln!("    [leveled rep] watermark={t} layout={}", self.describe_layout().render());
                     }
@@ -596,7 +629,10 @@ impl Instance {
             }
             Op::Major { target, wm } => {
                 let t = self.watermark(*wm);
-                self.tree().major_compact(*target, t).map_err(|e| self.op_err(op, "major_compact", &e))?;
+                self.call_start();
+                let r = self.tree().major_compact(*target, t);
+                self.call_done(r.is_ok());
+                r.map_err(|e| self.op_err(op, "major_compact", &e))?;
                 self.set_ctx(&[], "major");
                 self.after_compaction()?;
                 self.post_structural()
@@ -607,9 +643,10 @@ impl Instance {
                     return Ok(());
                 }
                 let t = self.watermark(*wm);
-                self.tree()
-                    .compact(Arc::new(lsm_tree::compaction::MoveDown(*a, *b)), t)
-                    .map_err(|e| self.op_err(op, "compact(move_down)", &e))?;
+                self.call_start();
+                let r = self.tree().compact(Arc::new(lsm_tree::compaction::MoveDown(*a, *b)), t);
+                self.call_done(r.is_ok());
+                r.map_err(|e| self.op_err(op, "compact(move_down)", &e))?;
                 self.set_ctx(&[], "move_down");
                 self.post_structural()
             }
@@ -619,9 +656,10 @@ impl Instance {
                     return Ok(());
                 }
                 let t = self.watermark(*wm);
-                self.tree()
-                    .compact(Arc::new(lsm_tree::compaction::PullDown(*a, *b)), t)
-                    .map_err(|e| self.op_err(op, "compact(pull_down)", &e))?;
+                self.call_start();
+                let r = self.tree().compact(Arc::new(lsm_tree::compaction::PullDown(*a, *b)), t);
+                self.call_done(r.is_ok());
+                r.map_err(|e| self.op_err(op, "compact(pull_down)", &e))?;
                 self.set_ctx(&[], "pull_down");
                 self.after_compaction()?;
                 self.post_structural()
@@ -659,7 +697,10 @@ impl Instance {
             Op::DropRange { lo, hi } => self.drop_range(op, lo, hi),
             Op::Clear => {
                 let before = self.latest().0;
-                self.tree().clear().map_err(|e| self.op_err(op, "clear", &e))?;
+                self.call_start();
+                let r = self.tree().clear();
+                self.call_done(r.is_ok());
+                r.map_err(|e| self.op_err(op, "clear", &e))?;
                 let (vid, seq) = self.latest();
                 if vid != before {
                     self.model.clear(seq);
@@ -803,9 +844,10 @@ impl Instance {
             }
             _ => false,
         };
-        self.tree()
-            .drop_range::<Key, _>((to_bound(&lo), to_bound(&hi)))
-            .map_err(|e| self.op_err(op, "drop_range", &e))?;
+        self.call_start();
+        let r = self.tree().drop_range::<Key, _>((to_bound(&lo), to_bound(&hi)));
+        self.call_done(r.is_ok());
+        r.map_err(|e| self.op_err(op, "drop_range", &e))?;
         let (vid, seq) = self.latest();
         let after_ids = self.table_ids();
         if empty_range {
@@ -846,14 +888,25 @@ impl Instance {
             return Ok(());
         }
         let tree = self.tree().clone();
-        let before = audit::list_dir(&self.dir);
-        let mut ing = tree.ingestion().map_err(|e| self.op_err(op, "ingestion()", &e))?;
-        for (k, v) in &batch {
-            match v {
-                Some(v) => ing.write(k.clone(), v.clone()).map_err(|e| self.op_err(op, "ingestion.write", &e))?,
-                None => ing.write_tombstone(k.clone()).map_err(|e| self.op_err(op, "ingestion.write_tombstone", &e))?,
+        let before = if abandon { audit::list_dir(&self.dir) } else { Default::default() };
+        self.call_start();
+        let r = (|| -> lsm_tree::Result<Option<lsm_tree::AnyIngestion<'_>>> {
+            let mut ing = tree.ingestion()?;
+            for (k, v) in &batch {
+                match v {
+                    Some(v) => ing.write(k.clone(), v.clone())?,
+                    None => ing.write_tombstone(k.clone())?,
+                }
             }
-        }
+            if abandon {
+                Ok(Some(ing))
+            } else {
+                ing.finish()?;
+                Ok(None)
+            }
+        })();
+        self.call_done(r.is_ok());
+        let ing = r.map_err(|e| self.op_err(op, "ingestion", &e))?;
         if abandon {
             drop(ing);
             // whatever the abandoned writer left behind is an orphan until the next reopen
@@ -867,7 +920,6 @@ impl Instance {
             self.set_ctx(&["C14"], "ingest_abandoned");
             return self.post_structural();
         }
-        ing.finish().map_err(|e| self.op_err(op, "ingestion.finish", &e))?;
         // finish() flushed every memtable first
         self.model.rotate();
         self.model.flushed();
@@ -908,16 +960,19 @@ impl Instance {
     fn reopen(&mut self) -> Result<(), Violation> {
         // realistic close: nothing of ours keeps tables alive
         let _ = hooks::drain_installs();
-        let persisted = self.tree().get_highest_persisted_seqno();
-        let gc: BTreeMap<u64, (usize, u64, u64)> = self
-            .tree()
-            .current_version()
-            .gc_stats()
-            .iter()
-            .map(|(k, v)| (*k, verif::frag_entry_parts(v)))
-            .collect();
-        self.persisted_before_reopen = Some(persisted);
-        self.gc_before_reopen = Some(gc);
+        // (a previous, failed reopen may already have closed the tree: keep what was recorded then)
+        if self.tree.is_some() {
+            let persisted = self.tree().get_highest_persisted_seqno();
+            let gc: BTreeMap<u64, (usize, u64, u64)> = self
+                .tree()
+                .current_version()
+                .gc_stats()
+                .iter()
+                .map(|(k, v)| (*k, verif::frag_entry_parts(v)))
+                .collect();
+            self.persisted_before_reopen = Some(persisted);
+            self.gc_before_reopen = Some(gc);
+        }
         self.tree = None;
         self.snaps.clear();
         self.model.reopen();
